@@ -36,7 +36,8 @@ Misc ==
        { [fam |-> "setop", n |-> <<a, b2, c>>] : a \in 1..3, b2 \in 1..3, c \in 0..3 }
   \cup { [fam |-> "case", whens |-> w, els |-> e] : w \in 0..2, e \in BOOLEAN }
   \cup { [fam |-> "returning", kind |-> k, what |-> x] : k \in {"select", "insert", "update", "delete"},
-                                                       x \in {"own", "foreign", "str", "star", "const", "agg", "joined"} }
+                                                       x \in {"own", "foreign", "str", "star", "const", "agg", "joined",
+                                                             "own-star", "foreign-star", "joined-star", "own-expr", "foreign-expr", "own-case", "foreign-case", "mixed-expr"} }
   \cup { [fam |-> "ddl", calls |-> s] : s \in UNION {[1..n -> {"create_table", "columns", "as_select", "primary_key", "unique", "drop_table", "if_exists"}] : n \in 1..3} }
   \cup { [fam |-> "temporal", calls |-> s] : s \in UNION {[1..n -> {"for_", "for_portion"}] : n \in 1..2} }
   \cup { [fam |-> "rollup", calls |-> s] : s \in UNION {[1..n -> {"groupby", "rollup", "rollup_mysql", "rollup_mysql_empty"}] : n \in 1..3} }
@@ -79,7 +80,8 @@ MiscExpect(p) ==
       [] p.fam = "returning" ->
             [calls |-> << IF p.what = "agg" THEN "QueryException"
                           ELSE IF p.kind = "select" THEN "QueryException"
-                          ELSE IF p.what = "foreign" THEN "QueryException" ELSE "" >>,
+                          \* a term that refers to a table which is neither the statement's own nor a FROM / joined one
+                          ELSE IF p.what \in {"foreign", "foreign-star", "foreign-expr", "foreign-case", "mixed-expr"} THEN "QueryException" ELSE "" >>,
              render |-> ""]
       [] p.fam = "ddl" -> [calls |-> DdlWalk(p.calls, 1, [created |-> FALSE, cols |-> FALSE, assel |-> FALSE, pk |-> FALSE, dropped |-> FALSE]), render |-> ""]
       [] p.fam = "temporal" -> [calls |-> TempWalk(p.calls, 1, FALSE), render |-> ""]
